@@ -264,3 +264,18 @@ def run_turn(ctx, state, text):
     with TurnSpy() as spy:
         res = Orchestrator().run_turn(ctx, state, text)
     return res, spy
+
+
+def stub_store_etag():
+    """For obligations whose edge weights are SYMBOLIC: the store etag is a sha1 over repr(mutation), which would realise
+    the weights.  Those obligations run with the T1 cache off, so the etag is unused; it is replaced by a counter."""
+    from clematis.graph.store import InMemoryGraphStore
+
+    if getattr(InMemoryGraphStore._bump_etag, "_verif_stub", False):
+        return
+
+    def _bump(self, g, change=None):
+        g.version_etag = "n%d" % (int(str(g.version_etag)[1:]) + 1 if str(g.version_etag).startswith("n") else 1)
+
+    _bump._verif_stub = True
+    InMemoryGraphStore._bump_etag = _bump
